@@ -45,6 +45,17 @@ func genC15(r *simrt.Rand, tier string) (Cfg, *Program) {
 		pf.Producers, pf.Adds = [2]int{2, 4}, [2]int{3, 10}
 		pf.DelayPct, pf.MaxDelay = 50, 2
 	}
+	if r.Chance(25) {
+		// a caller polling the worker-level barrier while several queues have jobs: looking
+		// at the queues must not take a turn away from any of them
+		pf.Waiters, pf.WaitOps = [2]int{1, 1}, [2]int{2, 5}
+		pf.Wait = []wop{{opWUFw, 1}}
+	}
+	if r.Chance(20) {
+		// a queue handle is closed (often an empty, drained one): the others keep their order
+		pf.Cancellers, pf.CancelOps = [2]int{1, 1}, [2]int{1, 2}
+		pf.Cancel = []wop{{opCloseQueue, 1}}
+	}
 	c, p := generate(r, pf)
 	c.StartPaused = static
 	if r.Chance(35) {
